@@ -404,7 +404,6 @@ Proof.
   destruct (leave_room hh m true) as [h2 o1] eqn:Hl.
   assert (R2 : rel0 sid hh h2) by (rewrite (fst_eq _ _ _ Hl); apply rel0_leave_room).
   destruct (is_virtual (s_kind s)); [exact R2|].
-  destruct (s_conn s); [|exact R2].
   destruct (send_session h2 m (SRoom 0)) as [h3 o2] eqn:H3. cbn [fst]. rewrite (fst_eq _ _ _ H3).
   eapply rel0_trans; [exact R2|apply rel0_send_session].
 Qed.
@@ -705,9 +704,10 @@ Proof.
   assert (Hexp : forall hh, rel sid h hh -> rel sid h (set_conns hh (aset (h_conns hh) c (mkconn (c_addr cn) None true)))).
   { intros hh R. eapply rel_trans; [exact R|]. apply rel_of_rel0. apply rel0_eq; reflexivity. }
   pose proof (rel_refl sid h) as R0.
-  destruct hl as [b u rej|b tok f d|i].
+  destruct hl as [b u rej|b u t|b tok f d|i].
   - destruct (h_nb h <=? b); [cbn [fst]; now apply Hexp|]. destruct rej; [cbn [fst]; now apply Hexp|].
     destruct (register h c cn b KClient u) as [h1 o1] eqn:Hr. cbn [fst]. rewrite (fst_eq _ _ _ Hr). apply rel_register.
+  - destruct (v2_check (h_nb h) b t); [apply rel_register|cbn [fst]; now apply Hexp].
   - destruct (throttled h (c_addr cn) ACT_INTERNAL); [cbn [fst]; now apply Hexp|].
     destruct (negb (N.eqb tok 0)).
     { cbn [fst]. apply Hexp. apply rel_of_rel0, rel0_eq; reflexivity. }
@@ -1368,23 +1368,27 @@ Corollary qrun_queue_over_segment sid ops h :
   pend (qrun h ops) sid = pend h sid ++ appended true sid h ops.
 Proof. rewrite <- runx_qrun. apply queue_over_segment. Qed.
 
-(* ------------------------------------------------------------------ a message a disconnected session never gets *)
+(* ------------------------------------------------------------------ the notice that the room is gone *)
 (* Everything send_session is asked to send to a disconnected session is queued (2.) and delivered
-   by the resume (3.).  But one notice is not sent through send_session at all when the session has
-   no connection: when its room is deleted, a connected member is told that it left the room
-   (`room` with an empty id), a disconnected member is taken out of the room silently
-   (delete_member; hub.go processRoomDeleted: `if client := sess.GetClient(); client != nil`).
-   So "a resumed session has received every message a connected one would have received" does NOT
-   hold: after the resume the client still believes it is in the room. *)
+   by the resume (3.).  In the code as found one notice was not sent through that path at all when
+   the session had no connection: when its room is deleted a connected member is told that it left
+   the room (`room` with an empty id), a disconnected member was taken out of the room silently
+   (hub.go processRoomDeleted: `if client := sess.GetClient(); client != nil`), so after the resume
+   the client still believed it was in the room.  This was found while proving the statements of
+   this file (the only place besides deliver_to_session where the model looked at s_conn),
+   reproduced on the real server (props/C06 directed case "gone") and repaired ("fix: tell
+   disconnected sessions that their room was deleted"): the notice is now queued like every other
+   message.  The history below is the former counterexample; on the repaired model the resume
+   delivers the notice. *)
 Definition del_pre : list op := [OConnect 1 100; OHello 1 (HV1 0 7 false); OJoin 1 5 0 (RepOk None 0)].
 Definition del_cut : list op := del_pre ++ [ODrop 1; OApi 0 0 5 ADelete; OConnect 2 101].
-Lemma room_deleted_while_disconnected_refuted :
+Lemma room_deleted_while_disconnected_repaired :
   (* connected: told *)
   snd (qstep (qrun (init [0] false) del_pre) (OApi 0 0 5 ADelete)) = [ToConn 1 (SRoom 0)] /\
-  (* disconnected meanwhile: was in the room when cut, nothing is queued, the resume delivers the hello only,
-     and the session is in no room any more *)
+  (* disconnected meanwhile: was in the room when cut, the notice is queued, the resume delivers it after the
+     hello, and the session is in no room any more *)
   option_map s_room (get_sess (qrun (init [0] false) (del_pre ++ [ODrop 1])) 1) = Some (Some (0, 5)) /\
-  pend (qrun (init [0] false) del_cut) 1 = [] /\
-  snd (qstep (qrun (init [0] false) del_cut) (OHello 2 (HResume (IdPriv 1)))) = [ToConn 2 (SHello 1 7)] /\
+  pend (qrun (init [0] false) del_cut) 1 = [SRoom 0] /\
+  snd (qstep (qrun (init [0] false) del_cut) (OHello 2 (HResume (IdPriv 1)))) = [ToConn 2 (SHello 1 7); ToConn 2 (SRoom 0)] /\
   option_map s_room (get_sess (fst (qstep (qrun (init [0] false) del_cut) (OHello 2 (HResume (IdPriv 1))))) 1) = Some None.
 Proof. vm_compute. repeat split. Qed.
